@@ -752,6 +752,31 @@ def check_decomp(chk, d, rng, malformed, record=True):
     return pairs, len(obs), msgs
 
 
+def run_shards_with_retry(cases, shard):
+    """common.run_case_shards + one sequential retry of shards whose coqc process was killed from outside (SIGKILL / timeout
+    with nothing on stderr: memory pressure or a time limit on the shared machine, not a verdict of the checker)."""
+    import re, subprocess, os
+    failing, n_eval, broken = C.run_case_shards("C03", HEADER, "case", cases, shard=shard)
+    still = []
+    for b in broken:
+        fn = b.get("shard")
+        if b.get("rc") not in (-9, 137, 124, -15) or (b.get("stderr") or "").strip() or not fn or not os.path.exists(fn):
+            still.append(b); continue
+        n = len(re.findall(r"^\(\d+%nat, ", open(fn).read(), flags=re.M))
+        try:
+            p = subprocess.run(["timeout", "1200", "coqc", "-w", "none", "-R", os.path.join(C.COQ, "theories"), "TLV", fn],
+                               capture_output=True, text=True, cwd=os.path.dirname(fn))
+        except Exception as e:  # noqa
+            still.append(dict(b, retry=repr(e))); continue
+        out = p.stdout.replace("\n", " ").replace("%nat;", ";").replace("%nat]", "]")
+        m = re.search(r"=\s*\((\d+)(?:%nat)?,\s*\[([\d;\s]*)\](?:%nat)?\)", out)
+        if p.returncode != 0 or not m or int(m.group(1)) != n or n == 0:
+            still.append(dict(b, retry_rc=p.returncode, retry_stderr=p.stderr[-1000:])); continue
+        n_eval += n
+        failing.update(int(x) for x in m.group(2).replace(" ", "").split(";") if x)
+    return failing, n_eval, still
+
+
 def run(chk):
     rng = random.Random(chk.seed)
     chk.build_proofs()
@@ -776,7 +801,7 @@ def run(chk):
             chk.hist("weights", d.get("wk", "given"))
         if cid % 97 == 0:
             chk.sample({"decomposition": desc, "observed_views": [f"{v} -> {o[:120]}" for v, o in pairs[:4]]}, maxn=6)
-    failing, n_eval, broken = C.run_case_shards("C03", HEADER, "case", cases, shard=60 if tier == "quick" else 150)
+    failing, n_eval, broken = run_shards_with_retry(cases, shard=60 if tier == "quick" else 100)
     chk.checker_cmds.append("coqc (vm_compute) on generated build/cases/C03/*.v: Corr.C03.failing")
     chk.cov["traces_validated_against_impl"] = n_eval
     chk.cov["decompositions"] = len(cases)
